@@ -27,9 +27,10 @@ runtime residue exercised by the harness (`c33_*` families), not claimed here.
   `read_useless_run` — a run of useless records longer than the budget is rejected exactly at the limit;
   `post_handshake_messages_bounded` — at most `maxUselessRecords` post-handshake messages are accepted
   without an advancing record.
-* `alloc_bounded_partial` / `alloc_unbounded_today` — `decompressCert` requests `uncompressedLength+4`
-  bytes: bounded by the certificate-message limit only under the guard the code does **not** check (D18,
-  owned by C21); `decompress_alloc_no_panic` — its index expressions are in range.
+* `alloc_bounded` — for every compressed-certificate message `decompressCert` requests at most
+  `maxHandshakeCertificateMsg + 4` bytes (full statement; false before the repair of D18, whose witness stays in
+  the corpus); `alloc_refused_beyond_limit`, `decompress_alloc_only_if_advertised`; `decompress_alloc_no_panic` —
+  its index expressions are in range.
 -/
 namespace C33
 open Wire HostileMsg
@@ -359,95 +360,76 @@ theorem read_useless_run (st : RState) (rs : List Rec) (h : st.retry ≤ maxUsel
   exact ⟨trivial, this.2⟩
 
 
-/-! ## `decompressCert`: allocation from the declared length -/
+/-! ## `decompressCert`: allocation from the declared length (D18 repaired) -/
 
 /-- the four header stores and the `rawMsg[4:]` slice are always in range. -/
 theorem decompress_alloc_no_panic (m : CompCert) : decompressAlloc m ≠ .panic := by
-  rw [decompressAlloc_eq]; simp
+  rw [decompressAlloc_eq]; split <;> simp
 
-/-- full statement (what the property asks): for every parsed message,
-`decompressAlloc m = ok n → n ≤ maxHandshakeCert + 4`. **False of the unchanged code** (D18):
-provable only under the guard the code does not check. -/
-theorem alloc_bounded_partial (m : CompCert) (hguard : m.ulen ≤ maxHandshakeCert) (n : Nat)
-    (h : decompressAlloc m = .ok n) : n ≤ maxHandshakeCert + 4 := by
-  rw [decompressAlloc_eq] at h; cases h; omega
+/-- **nothing is allocated beyond the protocol's length limit**: for every compressed-certificate message,
+whatever length it declares, the buffer `decompressCert` requests is at most the certificate-message limit
+(+ 4 header bytes). Full statement — it was false before the repair of D18 (`corpus/C33/d18.case` keeps the
+12-byte witness `190000080002ffffff000000` as a regression case). -/
+theorem alloc_bounded (m : CompCert) (n : Nat) (h : decompressAlloc m = .ok (some n)) :
+    n ≤ maxHandshakeCert + 4 := by
+  rw [decompressAlloc_eq] at h
+  by_cases hg : m.ulen > maxHandshakeCert
+  · simp [hg] at h
+  · simp only [hg, if_false] at h
+    cases h; omega
 
-/-- what does hold without the guard: the request is bounded by the 24-bit field (16 MiB + 3). -/
-theorem alloc_le_u24 (data : Bytes) (m : CompCert) (h : ccUnmarshal data = some m) (n : Nat)
-    (ha : decompressAlloc m = .ok n) : n < 16777216 + 4 := by
-  rw [decompressAlloc_eq] at ha; cases ha
-  unfold ccUnmarshal at h
-  cases h0 : take? 4 data with
-  | none => simp [h0] at h
-  | some p0 =>
-    obtain ⟨_, s0⟩ := p0
-    simp only [h0] at h
-    cases h1 : readU16 s0 with
-    | none => simp [h1] at h
-    | some p1 =>
-      obtain ⟨alg, s1⟩ := p1
-      simp only [h1] at h
-      cases h2 : readU24 s1 with
-      | none => simp [h2] at h
-      | some p2 =>
-        obtain ⟨ulen, s2⟩ := p2
-        simp only [h2] at h
-        cases h3 : readVec24 s2 with
-        | none => simp [h3] at h
-        | some p3 =>
-          obtain ⟨body, _⟩ := p3
-          simp only [h3, Option.some.injEq] at h
-          subst h
-          simp only
-          match s1, h2 with
-          | a :: b' :: c :: r, h2 =>
-            simp [readU24] at h2
-            obtain ⟨rfl, _⟩ := h2
-            have := a.toNat_lt; have := b'.toNat_lt; have := c.toNat_lt
-            omega
+/-- a declared length beyond the limit is refused before anything is allocated. -/
+theorem alloc_refused_beyond_limit (m : CompCert) (h : m.ulen > maxHandshakeCert) : decompressAlloc m = .ok none := by
+  rw [decompressAlloc_eq]; simp [h]
 
-/-- **negation of the full statement, with a concrete witness** (D18): a 12-byte compressed-certificate
-message that `unmarshal` accepts makes `decompressCert` request 16 MiB + 3 — 64 times the certificate
-limit. Replayed on the real code by `corpus/C33/d18.case`. -/
-theorem alloc_unbounded_today :
-    ∃ data m n, data.length = 12 ∧ ccUnmarshal data = some m ∧ decompressAlloc m = .ok n ∧
-      ¬ n ≤ maxHandshakeCert + 4 := by
-  refine ⟨[25, 0, 0, 8, 0, 2, 255, 255, 255, 0, 0, 0], ⟨2, 16777215, []⟩, 16777219, rfl, by decide, ?_, by decide⟩
-  rw [decompressAlloc_eq]
-
-/-- `decompressCert` allocates only after the algorithm was found among the advertised ones and is one of
-the three supported codecs; when it does, the request is exactly the declared length + 4 — whatever the
-decoder and the certificate parser do. -/
-theorem decompress_alloc_only_if_advertised (adv : List Nat) (m : CompCert) (firstRead : Nat → Option Bytes)
+/-- `decompressCert` allocates only after the algorithm was found among the advertised ones, the declared
+length passed the limit and the algorithm is one of the three supported codecs; when it does, the request is
+exactly the declared length + 4 ≤ limit + 4 — whatever the decoder and the certificate parser do. -/
+theorem decompress_alloc_only_if_advertised (adv : List Nat) (m : CompCert) (decoded : Option Bytes)
     (certOk : Bytes → Bool) :
-    (adv.contains m.alg = false → (decompress adv m firstRead certOk) = (.unadvertised, none)) ∧
-    (∀ n, (decompress adv m firstRead certOk).2 = some n → n = m.ulen + 4 ∧ adv.contains m.alg = true ∧
-      (m.alg = 1 ∨ m.alg = 2 ∨ m.alg = 3)) := by
+    (adv.contains m.alg = false → (decompress adv m decoded certOk) = (.unadvertised, none)) ∧
+    (∀ n, (decompress adv m decoded certOk).2 = some n → n = m.ulen + 4 ∧ n ≤ maxHandshakeCert + 4 ∧
+      adv.contains m.alg = true ∧ (m.alg = 1 ∨ m.alg = 2 ∨ m.alg = 3)) := by
   unfold decompress
   cases hc : adv.contains m.alg with
   | false => simp
   | true =>
     refine ⟨(by intro h; cases h), ?_⟩
     intro n
-    by_cases h2 : (m.alg = 1 ∨ m.alg = 2 ∨ m.alg = 3)
-    · have hd : (!decide (m.alg = 1 ∨ m.alg = 2 ∨ m.alg = 3)) = false := by simp [h2]
-      simp only [Bool.not_true, Bool.false_eq_true, if_false, hd]
-      cases firstRead m.ulen with
-      | none => intro h; simp at h; exact ⟨h.symm, trivial, h2⟩
-      | some out =>
-        simp only
-        by_cases h3 : out.length < m.ulen
-        · simp only [h3, if_true]; intro h; simp at h; exact ⟨h.symm, trivial, h2⟩
-        · simp only [h3, if_false]
-          by_cases h4 : certOk out = true
-          · simp only [h4, if_true]; intro h; simp at h; exact ⟨h.symm, trivial, h2⟩
-          · simp only [h4, if_false]; intro h; simp at h; exact ⟨h.symm, trivial, h2⟩
-    · have hd : (!decide (m.alg = 1 ∨ m.alg = 2 ∨ m.alg = 3)) = true := by simp [h2]
-      simp only [Bool.not_true, Bool.false_eq_true, if_false, hd, if_true]
+    by_cases hg : m.ulen > maxHandshakeCert
+    · simp only [Bool.not_true, Bool.false_eq_true, if_false, hg, if_true]
       intro h; cases h
+    · simp only [Bool.not_true, Bool.false_eq_true, if_false, hg]
+      have hle : m.ulen + 4 ≤ maxHandshakeCert + 4 := by omega
+      by_cases h2 : (m.alg = 1 ∨ m.alg = 2 ∨ m.alg = 3)
+      · have hd : (!decide (m.alg = 1 ∨ m.alg = 2 ∨ m.alg = 3)) = false := by simp [h2]
+        simp only [hd, Bool.false_eq_true, if_false]
+        cases decoded with
+        | none => intro h; simp at h; exact ⟨h.symm, by omega, trivial, h2⟩
+        | some out =>
+          simp only
+          by_cases h3 : out.length < m.ulen
+          · simp only [h3, if_true]; intro h; simp at h; exact ⟨h.symm, by omega, trivial, h2⟩
+          · simp only [h3, if_false]
+            by_cases h5 : out.length > m.ulen
+            · simp only [h5, if_true]; intro h; simp at h; exact ⟨h.symm, by omega, trivial, h2⟩
+            · simp only [h5, if_false]
+              by_cases h4 : certOk out = true
+              · simp only [h4, if_true]; intro h; simp at h; exact ⟨h.symm, by omega, trivial, h2⟩
+              · simp only [h4]; intro h; simp at h; exact ⟨h.symm, by omega, trivial, h2⟩
+      · have hd : (!decide (m.alg = 1 ∨ m.alg = 2 ∨ m.alg = 3)) = true := by simp [h2]
+        simp only [hd, if_true]
+        intro h; cases h
 
-example : decompress [2] ⟨3, 16777215, []⟩ (fun _ => some []) (fun _ => true) = (.unadvertised, none) := by decide
-example : decompress [1, 2, 3] ⟨2, 16777215, []⟩ (fun _ => some []) (fun _ => true) = (.lenMismatch, some 16777219) := by decide
+example : decompress [2] ⟨3, 16777215, []⟩ (some []) (fun _ => true) = (.unadvertised, none) := by decide
+example : decompress [1, 2, 3] ⟨2, 16777215, []⟩ (some []) (fun _ => true) = (.tooLarge, none) := by decide
+example : decompress [1, 2, 3] ⟨2, 3, []⟩ (some [1, 2]) (fun _ => true) = (.lenMismatch, some 7) := by decide
+example : decompress [1, 2, 3] ⟨2, 1, []⟩ (some [1, 2]) (fun _ => true) = (.lenExceeds, some 5) := by decide
+example : decompress [1, 2, 3] ⟨2, 2, []⟩ (some [1, 2]) (fun _ => true) = (.ok, some 6) := by decide
+/-- the former D18 witness: accepted by the codec, refused by the guard, nothing allocated. -/
+example : ccUnmarshal [25, 0, 0, 8, 0, 2, 255, 255, 255, 0, 0, 0] = some ⟨2, 16777215, []⟩ ∧
+    decompressAlloc ⟨2, 16777215, []⟩ = .ok none := ⟨by decide, alloc_refused_beyond_limit _ (by decide)⟩
+example : decompressAlloc ⟨2, 262144, []⟩ = .ok (some 262148) := by rw [decompressAlloc_eq]; decide
 
 /-! ## non-vacuity: concrete, non-trivial instances of every hypothesis / statement above -/
 
@@ -461,7 +443,7 @@ example : ({ alpn := [104, 50], earlyData := true, alps := [1, 2, 3], alpsCP := 
   intro q h; cases h
 example : seeUnmarshal (seeEncode { alpn := [104, 50], earlyData := true, alps := [1, 2, 3], alpsCP := alpsNew })
     = some { alpn := [104, 50], earlyData := true, alps := [1, 2, 3], alpsCP := alpsNew } := by decide
-/-- the D18 witness message goes through `readHandshake` as a client and is accepted by the dispatch. -/
+/-- the former D18 witness message goes through `readHandshake` as a client and is accepted by the dispatch. -/
 example : (readHandshake (fun _ _ => true) true true true [25, 0, 0, 8, 0, 2, 255, 255, 255, 0, 0, 0]).res
     = .ok .compressedCert := by decide
 /-- truncated by one byte it is still not a panic: the buffer is simply incomplete. -/
